@@ -458,11 +458,21 @@ def run_case(c):
     m = _start(c["start"])
     stale = []
     done = []
+    kept = []
     for i, st in enumerate(c["steps"]):
         for k in st["reads"]:
             _get(m, k)
+        # keys held before the mutator (the cache is coherent here: the reads above verified it)
         try:
+            m._cache.verify()
+            before = sorted(m._cache.cache.keys())
+        except Exception:
+            before = []
+        try:
+            h_before = (np.array(m.vertices).tobytes(), np.array(m.faces).tobytes())
             m = _apply(m, st["op"], st["seed"])
+            kept.append({"op": st["op"], "before": before, "after": sorted(set(m._cache.cache.keys()) & set(before)),
+                         "changed": (np.array(m.vertices).tobytes(), np.array(m.faces).tobytes()) != h_before})
         except Exception as e:
             done.append({"op": st["op"], "exc": common.err_kind(e)})
             break
@@ -492,7 +502,7 @@ def run_case(c):
                 pass
         if stale:
             break
-    return {"stale": stale, "done": done}
+    return {"stale": stale, "done": done, "kept": kept}
 
 
 NORMALS = {"face_normals", "vertex_normals"}
@@ -521,6 +531,44 @@ EDGE_KEYS = {"edges", "edges_sorted", "edges_unique", "edges_unique_inverse", "e
              "edges_face", "face_adjacency", "face_adjacency_edges", "face_adjacency_unshared", "face_adjacency_angles",
              "face_adjacency_convex", "face_adjacency_projections", "face_adjacency_radius", "face_adjacency_span",
              "integral_mean_curvature", "face_neighborhood"}
+
+
+# ------------------------------------------------------------------ translator validation (model side)
+# which library call an op of the harness is, in terms of the generated mutator table
+_TABLE = None
+_MUT_OF = {"invert": "invert", "process": "process", "process_validate": "process", "unmerge": "unmerge_vertices",
+           "rezero": "apply_transform", "scale": "apply_transform", "translate": "apply_transform"}
+
+
+def model_request(c, o):
+    if "err" in o or not o.get("kept"):
+        return None
+    return {"steps": o["kept"]}
+
+
+def local_model(req):
+    """what the generated table (the object printed into Generated/C01Table.lean) allows a mutator to keep"""
+    global _TABLE
+    if _TABLE is None:
+        _TABLE = table()
+    t = _TABLE["mutators"]
+    out = []
+    for st in req["steps"]:
+        op = st["op"]
+        name = "apply_transform" if op.startswith("transform:") else _MUT_OF.get(op)
+        out.append(None if name is None or name not in t else {"mutator": name, "may_keep": t[name]["exclude"]})
+    return {"steps": out}
+
+
+def compare(c, o, m):
+    for st, ms in zip(o["kept"], m["steps"]):
+        if ms is None or not st.get("changed"):
+            continue            # the identity shortcut leaves data and cache alone
+        extra = sorted(set(st["after"]) - set(ms["may_keep"]))
+        if extra:
+            return (f"{ms['mutator']} ({st['op']}) kept cache keys the generated table does not list: {extra[:5]} "
+                    f"- the translator's table does not describe the code")
+    return None
 
 
 def nontrivial(c, o):
